@@ -98,7 +98,7 @@ def uncovered_lines(files, name):
     return sorted(n for n, c in ent["lines"].items() if c == 0)
 
 
-def measure_gen_monitor(lines, seed, n_iid, n_grid, hostile, extra_env=None, timeout=7200):
+def measure_gen_monitor(lines, seed, n_iid, n_grid, hostile, extra_env=None, timeout=7200, deep_events=0):
     """Run harness/gen_monitor.cc on `lines` under the coverage build; returns (summary, files)."""
     exe = build.harness("cov", "gen_monitor", ["gen_monitor.cc"])
     bdir = build.variant_dir("cov")
@@ -110,7 +110,7 @@ def measure_gen_monitor(lines, seed, n_iid, n_grid, hostile, extra_env=None, tim
     env.update({"GCOV_PREFIX": prefix})
 
     def one(shard):
-        return run([exe, spec, str(seed), str(n_iid), str(n_grid), "1" if hostile else "0", str(shard), str(nshards)],
+        return run([exe, spec, str(seed), str(n_iid), str(n_grid), "1" if hostile else "0", str(shard), str(nshards), str(deep_events)],
                    timeout=timeout, env=build.lib_env("cov", env))
 
     res = pmap(one, list(range(nshards)), jobs=NCPU)
